@@ -1,5 +1,6 @@
 #include "rand_seam.h"
 #include <cstdlib>
+#include <gmp.h>
 
 extern "C" int __wrap_rand(void)
 {
@@ -16,4 +17,44 @@ extern "C" int __wrap_rand(void)
     x ^= x >> 7;
     x ^= x << 17;
     return (int)((x >> 20) & 0x7fffffff);
+}
+
+// Second half of the randomness seam: -Wl,--wrap=__gmpz_urandomm. The real
+// generator is always advanced (so the stream after a forced draw is the one
+// the seed gives); a forced draw then overrides the value with a boundary one.
+extern "C" void __real___gmpz_urandomm(mpz_ptr rop, gmp_randstate_t st, mpz_srcptr n);
+extern "C" void __wrap___gmpz_urandomm(mpz_ptr rop, gmp_randstate_t st, mpz_srcptr n)
+{
+    simrand::State &s = simrand::state();
+    uint64_t idx = s.gmp_draws++;
+    if (s.budget && s.gmp_draws > 64 * s.budget)
+        throw simrand::BudgetExceeded();
+    // n may alias rop
+    mpz_t nn;
+    mpz_init_set(nn, n);
+    __real___gmpz_urandomm(rop, st, nn);
+    for (auto &f : s.forced) {
+        if (f.first != idx)
+            continue;
+        switch (f.second) {
+            case 0:
+                mpz_set_ui(rop, 0);
+                break;
+            case 1:
+                mpz_set_ui(rop, 1);
+                break;
+            case 2:
+                mpz_sub_ui(rop, nn, 1);
+                break;
+            case 3:
+                mpz_fdiv_q_2exp(rop, nn, 1);
+                break;
+            default:
+                mpz_set_ui(rop, 2);
+        }
+        mpz_fdiv_r(rop, rop, nn); // stay inside [0, n)
+        s.forced_fired++;
+        break;
+    }
+    mpz_clear(nn);
 }
